@@ -110,6 +110,19 @@ func (p *pkg) topValue(name string) ast.Expr {
 	return nil
 }
 
+// funcAny: the function or method called name, whatever its receiver (a plain function may become a
+// method in a refactoring without changing what it does)
+func (p *pkg) funcAny(name string) *ast.FuncDecl {
+	for _, af := range p.sortedFiles() {
+		for _, d := range af.Decls {
+			if fd, ok := d.(*ast.FuncDecl); ok && fd.Name.Name == name && fd.Body != nil {
+				return fd
+			}
+		}
+	}
+	return nil
+}
+
 func (p *pkg) funcDecl(recv, name string) *ast.FuncDecl {
 	for _, af := range p.sortedFiles() {
 		for _, d := range af.Decls {
@@ -450,7 +463,7 @@ func main() {
 	} else {
 		f.miss("h.rateLimit")
 	}
-	if v, ok := callArgInt(m.funcDecl("", "runHook"), "time.NewTimer", 0); ok {
+	if v, ok := callArgInt(m.funcAny("runHook"), "time.NewTimer", 0); ok {
 		f.n("hook_kill_ms", v, "main.runHook time.NewTimer")
 	} else {
 		f.miss("runHook kill timer")
@@ -688,6 +701,9 @@ func main() {
 	touch := 0
 	for _, name := range []struct{ r, n string }{{"HooksCaller", "run"}, {"HooksCaller", "runAllHooks"}, {"", "runHook"}, {"", "remoteHTTPUpgrader"}, {"", "remoteHTTPUpgrade"}} {
 		fn := m.funcDecl(name.r, name.n)
+		if fn == nil {
+			fn = m.funcAny(name.n)
+		}
 		if fn == nil {
 			f.miss("func " + name.n)
 			continue
